@@ -18,7 +18,7 @@ pub struct VClock {
     pub auto_advance_ns: i64,
     /// if non-zero, clock_gettime fails with this errno
     pub fail_errno: i32,
-    /// fail only reads of this clock id (-1: all) when fail_errno is set
+    /// fail only reads of this clock id (-1: all; -2: every clock of the monotonic family) when fail_errno is set
     pub fail_clock: i32,
 }
 
@@ -206,7 +206,7 @@ pub unsafe extern "C" fn clock_gettime(clk: libc::clockid_t, ts: *mut libc::time
             f();
         }
         let mut c = CLK.with(|k| k.get());
-        if c.fail_errno != 0 && (c.fail_clock < 0 || c.fail_clock == clk) {
+        if c.fail_errno != 0 && (c.fail_clock == -1 || c.fail_clock == clk || (c.fail_clock == -2 && !is_real(clk))) {
             errno::set_errno(errno::Errno(c.fail_errno));
             return -1;
         }
